@@ -55,7 +55,8 @@ LEVEL = "exploration"
 QUICK_N = 160000
 THOROUGH_N = 6000000
 CHUNK = 1000
-RULE = ("gen(seed): combinator in {multi list/dict, WaitIterator args/kwargs x next()/async-for, "
+RULE = ("gen(seed): combinator in {multi list/dict, WaitIterator args/kwargs x next()/async-for x consumer giving up on a pending "
+        "next() (cancel / asyncio.wait_for) and calling next() again, "
         "with_timeout abs/timedelta x 1-2 wrappers, chain_future x target pending/done/cancelled/"
         "settled-in-between}; <=4 distinct inputs (asyncio|concurrent, result|exception|cancelled, "
         "completed directly or via call_soon), argument list with duplicates, inputs already done "
@@ -150,8 +151,13 @@ def gen(rng, tier, index):
         if comb == "wait":
             scn["consumer"] = {
                 "mode": "next" if rng.random() < 0.7 else "aiter",
-                "pauses": [rng.choice([0, 0, 0, 1, -1, 2, 3, 6]) for _ in range(len(args) + 1)],
+                "pauses": [rng.choice([0, 0, 0, 1, -1, 2, 3, 6]) for _ in range(len(args) + 3)],
             }
+            if scn["consumer"]["mode"] == "next" and rng.random() < 0.35:
+                # the consumer gives up on some next() calls: >0 = asyncio.wait_for(fut, k units),
+                # -1 = cancel the returned future at once, -2/-3 = after 1/2 iterations
+                scn["consumer"]["abandon"] = [rng.choice([0, 0, 1, 1, 2, 3, -1, -2, -3])
+                                              for _ in range(len(args) + 2)]
     elif comb == "timeout":
         inputs = [mk_input()]
         scn["inputs"] = inputs
@@ -344,7 +350,7 @@ def run(scn, full_log=False):
         sync = []  # per output: normalised exception raised synchronously by the call, or None
         tinfo = []  # timeout: per wrapper (D, settle_cb_time)
         yields = []  # wait: (kind, outcome, current_index, ident, seq_at, backlog)
-        W = {"it": None, "task": None, "overrun": False, "ctor": None}
+        W = {"it": None, "task": None, "overrun": False, "ctor": None, "lost": []}
         chain = {"b_at_a": None, "ext": None}
 
         blocked = []
@@ -460,9 +466,16 @@ def run(scn, full_log=False):
                     if k > cap:
                         W["overrun"] = True
                         return
+            abandon = cs.get("abandon") or []
+            after_abandon = False
             while not it.done():
                 await gap(pauses[k] if k < len(pauses) else 0)
                 bl = backlog()
+                if after_abandon:
+                    after_abandon = False
+                    if bl > 0:
+                        probe("wait_input_settled_between_abandon_and_next")
+                cur = it.current_future
                 try:
                     fut = it.next()
                 except asyncio.CancelledError:
@@ -476,16 +489,52 @@ def run(scn, full_log=False):
                         probe("wait_next_after_completion")
                         if bl >= 2:
                             probe("wait_two_finished_between_next")
+                    ab = abandon[k] if k < len(abandon) else 0
+                    ab = ab if isinstance(ab, int) and not isinstance(ab, bool) else 0
+                    gave_up = False
                     try:
-                        r = await fut
-                        oc = ("res", _nv(r))
+                        if ab > 0 and not fut.done():
+                            try:
+                                r = await asyncio.wait_for(fut, min(ab, 64) * scale * UNIT)
+                            except asyncio.TimeoutError:
+                                gave_up = True
+                        elif ab < 0 and not fut.done():
+                            for _ in range(min(-ab - 1, 4)):
+                                await asyncio.sleep(0)
+                            if fut.cancel():
+                                gave_up = True
+                            else:
+                                r = await fut
+                        else:
+                            r = await fut
+                        oc = ("res", _nv(r)) if not gave_up else None
                     except asyncio.CancelledError:
                         if S["stop"]:
                             raise
                         oc = ("cancel",)
                     except Exception as e:
                         oc = _nexc(e)
-                    rec("y", oc)
+                    if gave_up:
+                        if after_abandon is False:
+                            after_abandon = True
+                        idn = ident(it.current_future)
+                        if it.current_future is cur:
+                            probe("wait_next_abandoned")
+                            rec("ab", None)
+                        elif not fut.cancelled() or (0 <= idn < n and inputs[idn]["o"] == "cancel"):
+                            # the iterator handed an input to this call while the consumer was
+                            # giving up (asyncio.wait_for's own race): it is in the future
+                            probe("wait_abandon_raced_with_delivery")
+                            rec("y", _state(fut))
+                        else:
+                            # the iterator committed an input to this call (popped it, moved
+                            # current_future) but had not transferred the outcome when the
+                            # consumer gave up: nobody can ever get it
+                            probe("wait_abandon_lost_committed_input")
+                            W["lost"].append(idn)
+                            rec("ab", None)
+                    else:
+                        rec("y", oc)
                 k += 1
                 if k > cap:
                     W["overrun"] = True
@@ -705,6 +754,8 @@ def run(scn, full_log=False):
             seen = {}
             ys = [y for y in yields if y[0] == "y"]
             for kind, oc, cidx, idn, _seq in yields:
+                if kind == "ab":
+                    continue
                 if kind == "sync":
                     bad("waititer.next_raised", f"next() raised {oc} synchronously "
                         f"(yields so far {len(seen)})", _ename(oc) + "/" + tag)
@@ -732,8 +783,12 @@ def run(scn, full_log=False):
                     f"consumer still waiting at quiescence after {len(ys)} yields; all inputs done; "
                     f"not yet yielded: {missing}", tag)
             elif missing:
+                dtag = tag
+                if all(i in W["lost"] and inputs[i]["k"] == "cf" for i in missing):
+                    dtag = "cf_input_committed_to_abandoned_next"
                 bad("waititer.input_dropped", f"iterator reported done() but inputs {missing} "
-                    f"were never yielded (got {[y[3] for y in ys]})", tag)
+                    f"were never yielded (got {[y[3] for y in ys]}; next() calls given up: "
+                    f"{sum(1 for y in yields if y[0] == 'ab')})", dtag)
             # completion order (partial order, see module doc)
             order = [y[3] for y in ys if y[3] in stamps]
             for x in range(len(order)):
